@@ -323,3 +323,59 @@ def run(ctx) -> None:  # noqa: F811
                   f"`{_nt(b)[:60]}` multiplies gradient component {ga} by the frequency grid of axis {ka}",
                   key_detail=f"prod{ga}")
     _inner_run_c40(ctx)
+
+
+# ---- added after the seeded change C40-r3seed7: block-wise application of a global operation needs whole images
+_inner_run_c40c = run
+
+
+def run(ctx) -> None:  # noqa: F811
+    import ast as _ast
+
+    from ..cfg import DataFlow as _DF
+    from ..model import call_name as _cn, norm_text as _nt, walk_no_nested as _walk
+
+    ctx.rule("R-WHOLEBLOCK", "Images.integrate_gradient (and the other Images methods that map a Fourier-space operation "
+             "over dask blocks) hand map_blocks an array whose two base axes are single chunks: *every* reaching "
+             "definition of the mapped array is a rechunk(<chunks[:-2]> + ((shape[-2],), (shape[-1],))) of the "
+             "measurement's array.  A rechunk that is skipped under a condition on one axis only lets blocks that "
+             "split the other axis through: each strip is then integrated as its own periodic image and the lazy "
+             "result differs from the eager one")
+    repo = ctx.repo
+    k = repo.cls("abtem.measurements", "Images")
+    GLOBAL = {"_integrate_gradient_2d", "fft_interpolate", "_diffractograms", "fft2", "ifft2", "fft_shift"}
+    n = 0
+    for defs in k.methods.values():
+        for f in defs:
+            df = _DF(f.node)
+            for c in _walk(f.node):
+                if not (isinstance(c, _ast.Call) and isinstance(c.func, _ast.Attribute) and c.func.attr == "map_blocks"
+                        and c.args):
+                    continue
+                fn = (_cn(_ast.Call(func=c.args[0], args=[], keywords=[])) or "").split(".")[-1]
+                if fn not in GLOBAL:
+                    continue
+                recv = c.func.value
+                if not isinstance(recv, _ast.Name):
+                    continue
+                st = next(s_ for s_ in _walk(f.node) if isinstance(s_, _ast.stmt) and any(x is c for x in _ast.walk(s_))
+                          and not isinstance(s_, (_ast.If, _ast.For, _ast.With, _ast.Try, _ast.FunctionDef)))
+                at = df.cfg.node_of(st).idx
+                n += 1
+                bad = []
+                for d in df.reaching(at, recv.id):
+                    v = d.value
+                    ok = isinstance(v, _ast.Call) and isinstance(v.func, _ast.Attribute) and v.func.attr == "rechunk"
+                    if ok:
+                        spec = v.args[0] if v.args else next((kw.value for kw in v.keywords if kw.arg == "chunks"), None)
+                        txt = _nt(spec).replace(" ", "") if spec is not None else ""
+                        ok = txt.endswith("((self.shape[-2],),(self.shape[-1],))") or txt.endswith("(-1,-1)")
+                    if not ok:
+                        bad.append(_nt(v)[:50] if v is not None else d.kind)
+                ctx.check(not bad, "R-WHOLEBLOCK", f"{f.qualname}:map_blocks({fn})", f.loc(c),
+                          f"`{recv.id}` is always the array re-chunked to whole images",
+                          f"`{recv.id}.map_blocks({fn}, ...)` can receive `{bad[0] if bad else ''}`, an array whose base axes "
+                          "are not re-chunked to single blocks on that path: a block holding part of an image is "
+                          "transformed as if it were a whole periodic image", key_detail="wholeblock")
+    ctx.require(n >= 2, f"R-WHOLEBLOCK found only {n} block-wise Fourier operations in Images")
+    _inner_run_c40c(ctx)
